@@ -83,7 +83,9 @@ def check_one(case, ctx, deep, small_subsets=8):
     o, p, rows = case['o'], case['p'], case['r']
     n, m = len(o), len(p)
     rnd = gen._random.Random(repr((rows, n, m, ctx.seed)))
-    for _ in range(2 if deep else 1):
+    for rep_ in range(2 if deep else 1):
+        if rep_:
+            lib.interfere(case)   # other contexts created and queried in between (DESIGN.md 10.2)
         context = ctx.call('Context()', plain, lib.context_of, case)
         bools = gen.bools_of(case)
         ctx.check(context.objects == tuple(o) and context.properties == tuple(p) and context.bools == bools,
